@@ -34,6 +34,15 @@
 //!       fragmentation (ignored over TCP))
 //!   step (optionally suffixed `~<k>`: only k scheduler yields follow instead of a full settle):
 //!     C            offer a connection (index = order of offering) and connect a client over it
+//!     K<n>[:<j>]   (g, n) a BURST: n connections (1 ≤ n ≤ 8) made ready in `incoming` at the same
+//!                  instant - all n are queued before the server can run again - then a client is
+//!                  connected over each.  With `:<j>` (1 ≤ j ≤ n, mode g only) the shutdown signal is
+//!                  wired to the burst: the scripted `Incoming` stream resolves the signal's oneshot
+//!                  inside `poll_next`, right after it has yielded the j-th connection of the burst -
+//!                  the ACCEPT ITSELF triggers the signal, so the signal becomes ready between two
+//!                  connections of one backlog with no quiescent point (not even a yield) between
+//!                  them.  Connections 1..j of the burst were taken before the signal, j+1..n can
+//!                  only be taken after it.
 //!     H            (gs) offer a connection whose client does not say anything yet
 //!     h<c>         (gs) the silent client of connection c starts its TLS handshake and connects
 //!     Hb           (gs) offer a connection whose client sends a plain HTTP request instead of TLS
@@ -107,6 +116,8 @@ use tonic::{Request, Response, Status};
 #[derive(Clone, Debug, PartialEq)]
 enum Op {
     Conn,
+    /// n connections ready at once; the signal fires when the j-th is taken (0 = not wired)
+    Burst(usize, usize),
     ConnStalled,
     ConnBad,
     Hello(usize),
@@ -203,6 +214,23 @@ fn parse(case: &str) -> Option<Script> {
             ("C", []) => {
                 nconn += 1;
                 Op::Conn
+            }
+            ("K", [n]) if !tls && transport == Transport::Duplex => {
+                let n: usize = n.parse().ok()?;
+                if n == 0 || n > 8 {
+                    return None;
+                }
+                nconn += n;
+                Op::Burst(n, 0)
+            }
+            ("K", [n, j]) if !tls && transport == Transport::Duplex && graceful => {
+                let n: usize = n.parse().ok()?;
+                let j: usize = j.parse().ok()?;
+                if n == 0 || n > 8 || j == 0 || j > n {
+                    return None;
+                }
+                nconn += n;
+                Op::Burst(n, j)
             }
             ("H", []) if tls => {
                 nconn += 1;
@@ -418,12 +446,43 @@ impl AsyncWrite for SrvIo {
     }
 }
 
-struct Incoming(mpsc::UnboundedReceiver<Result<SrvIo, std::io::Error>>);
+/// the sending half of the user's shutdown signal: the script's `G` step takes it - or the
+/// scripted `Incoming` stream does, at the instant it hands over a connection a `K<n>:<j>` step
+/// wired the signal to
+type SigTx = Arc<Mutex<Option<oneshot::Sender<()>>>>;
+
+fn fire_signal(sig: &SigTx) {
+    if let Some(tx) = sig.lock().unwrap().take() {
+        let _ = tx.send(());
+    }
+}
+
+struct Incoming {
+    rx: mpsc::UnboundedReceiver<Result<SrvIo, std::io::Error>>,
+    /// connections (by index) whose hand-over to the accept loop fires the shutdown signal
+    triggers: Arc<Mutex<Vec<usize>>>,
+    sig: SigTx,
+}
 
 impl futures_core::Stream for Incoming {
     type Item = Result<SrvIo, std::io::Error>;
     fn poll_next(mut self: Pin<&mut Self>, cx: &mut Context<'_>) -> Poll<Option<Self::Item>> {
-        self.0.poll_recv(cx)
+        let r = self.rx.poll_recv(cx);
+        if let Poll::Ready(Some(Ok(io))) = &r {
+            let wired = {
+                let mut t = self.triggers.lock().unwrap();
+                let before = t.len();
+                t.retain(|id| *id != io.id);
+                t.len() != before
+            };
+            if wired {
+                // the signal future becomes ready while the accept loop is still busy with this
+                // very connection: the next thing the loop does decides whether it looks at the
+                // signal before it takes the connection queued right behind
+                fire_signal(&self.sig);
+            }
+        }
+        r
     }
 }
 
@@ -1271,7 +1330,8 @@ async fn run(sc: Script) -> String {
     let tcp = sc.transport == Transport::Tcp;
     let graceful = sc.graceful;
     let mut inc_tx = None;
-    let mut sig_tx;
+    let sig_tx: SigTx = Arc::new(Mutex::new(None));
+    let triggers: Arc<Mutex<Vec<usize>>> = Arc::new(Mutex::new(Vec::new()));
     let _keep_tx; // keeps an unfired signal pending for ever
     let mut tcp_addr: Option<std::net::SocketAddr> = None;
     let serve_task;
@@ -1280,10 +1340,10 @@ async fn run(sc: Script) -> String {
         inc_tx = Some(itx);
         let (stx, sig_rx) = oneshot::channel::<()>();
         let (ktx, keep_rx) = oneshot::channel::<()>();
-        sig_tx = Some(stx);
+        *sig_tx.lock().unwrap() = Some(stx);
         _keep_tx = ktx;
         let router = new_router(&sc, &sh);
-        let incoming = Incoming(inc_rx);
+        let incoming = Incoming { rx: inc_rx, triggers: triggers.clone(), sig: sig_tx.clone() };
         let shs = sh.clone();
         serve_task = tokio::spawn(async move {
             let r = if graceful {
@@ -1333,7 +1393,7 @@ async fn run(sc: Script) -> String {
                 tokio::task::yield_now().await;
             }
             if !task.is_finished() {
-                sig_tx = Some(stx);
+                *sig_tx.lock().unwrap() = Some(stx);
                 _keep_tx = ktx;
                 tcp_addr = Some(addr);
                 serve_task = task;
@@ -1443,6 +1503,37 @@ async fn run(sc: Script) -> String {
                     dropped: false,
                 });
                 channels.push(slot);
+            }
+            Op::Burst(n, j) => {
+                // all n connections are queued on `incoming` before anything else can run (no
+                // await in this loop); only then are the clients connected, in order
+                let mut clis = Vec::new();
+                for i in 0..n {
+                    let id = {
+                        let mut g = sh.lock().unwrap();
+                        g.conns.push(ConnRec::default());
+                        g.conns.len() - 1
+                    };
+                    let (cli, srv) = tokio::io::duplex(sc.buf);
+                    if let Some(tx) = &inc_tx {
+                        if i + 1 == j {
+                            triggers.lock().unwrap().push(id);
+                        }
+                        let _ = tx.send(Ok(SrvIo { inner: srv, id, sh: sh.clone() }));
+                    } else {
+                        drop(srv);
+                    }
+                    clis.push(cli);
+                }
+                for cli in clis {
+                    conn_tasks.push(None);
+                    held.push(None);
+                    silent.push(None);
+                    let slot = Slot::Now(connect_duplex(cli, false).await);
+                    // (`exp` is only consulted by the TCP variant, which has no bursts)
+                    exp.conns.push(ExpConn { accept: false, acc_at: exp.now, aged: false, dropped: false });
+                    channels.push(slot);
+                }
             }
             Op::ConnStalled | Op::ConnBad => {
                 let id = {
@@ -1564,9 +1655,7 @@ async fn run(sc: Script) -> String {
                 exp.calls[k].permits += 1;
             }
             Op::Sig => {
-                if let Some(tx) = sig_tx.take() {
-                    let _ = tx.send(());
-                }
+                fire_signal(&sig_tx);
                 exp.sig = true;
             }
             Op::EndIncoming => {
@@ -1663,7 +1752,7 @@ async fn run(sc: Script) -> String {
     sh.lock().unwrap().step = nsteps + 2;
     serve_task.abort();
     drop(inc_tx);
-    drop(sig_tx);
+    drop(sig_tx.lock().unwrap().take());
     drop(_keep_tx);
     settle().await;
 
@@ -1896,6 +1985,35 @@ fn corpus() -> Vec<String> {
             out.push(format!("sc:corpus g b{} p10 a0 C U0:0 G~{} C U1:0 A0", b, k));
             out.push(format!("sc:corpus g b{} p10 a0 G~0 C~0 C~0 C", b));
         }
+    }
+    // bursts: n connections ready at once, the signal wired to the hand-over of the j-th (the
+    // accept itself fires it): 1..j are served, j+1..n are never taken
+    for n in 1..=4usize {
+        for j in 1..=n {
+            out.push(format!("sc:corpus g b1024 p10 a0 K{}:{}", n, j));
+        }
+    }
+    for s in [
+        "sc:corpus g b1024 p10 a0 K3",
+        "sc:corpus g b1024 p10 a0 K3 G",
+        "sc:corpus g b1024 p10 a0 G~0 K3",
+        "sc:corpus g b1024 p10 a0 K3~0 G",
+        "sc:corpus g b1024 p10 a0 K3~0 E",
+        "sc:corpus g b1024 p10 a0 E~0 K3",
+        "sc:corpus g b1024 p10 a0 K3:2~0 E",
+        "sc:corpus g b1024 p10 a0 K3:2 E",
+        "sc:corpus g b1024 p10 a0 K3:1~0 G",
+        "sc:corpus g b1024 p10 a0 K2:1~0 C",
+        "sc:corpus g b1024 p10 a0 C~0 K2:1",
+        "sc:corpus g b24 p300 a0 C U0:0 K4:2 A0 C U5:0",
+        "sc:corpus g b1024 p10 a0 C S0:2:0 A0 K3:3 U1:0 U3:5 A0 A0 A0",
+        "sc:corpus g b1024 p10 a0 K2 U0:0 U1:5 K3:1 A0 A1 U2:0",
+        "sc:corpus g b1024 p10 a1 K2 T K2:1",
+        "sc:corpus g b1024 p10 a0 t30 K2 U0:0 U1:0 K2:2 W31 A0",
+        "sc:corpus n b1024 p10 a0 K3 U2:0 E A0",
+        "sc:corpus n b1024 p10 a0 K4~0 E",
+    ] {
+        out.push(s.to_string());
     }
     for s in [
         "sc:corpus g b1024 p10 a0 C U0:0 G A0",
@@ -2332,6 +2450,122 @@ fn disturbed(out: &mut Vec<String>, rng: &mut Rng, n: usize, max_conn: usize, ma
     }
 }
 
+/// "time passes" at one random place that may take it (a `W` step must follow a quiescent step)
+fn time_at_quiet_place(ops: &[String], rng: &mut Rng) -> Vec<String> {
+    let at = rng.range(0, ops.len() as u64) as usize;
+    if at > 0 && ops[at - 1].contains('~') {
+        return ops.to_vec();
+    }
+    insert_at(ops, at, &[wait_tok(rng)])
+}
+
+/// Bursts: `K<n>` = n connections ready on `incoming` at the same instant, for all 1 ≤ j ≤ n ≤ 4
+/// with the signal wired to the hand-over of the j-th (`K<n>:<j>`: the accept itself fires the
+/// signal, between two connections of one backlog), and unwired bursts with the signal / the end
+/// of incoming just before, just after, or right behind the burst; on a server that already has
+/// connections and calls in flight; calls on the burst's connections; a late connection.
+fn bursts(out: &mut Vec<String>, rng: &mut Rng, count: usize) {
+    for i in 0..count {
+        let n = 1 + (i % 4);
+        // j = 0: not wired
+        let j = (i / 4) % (n + 1);
+        let nosignal = j == 0 && rng.chance(1, 8);
+        let mode = if nosignal { "n" } else { "g" };
+        let finish = rng.chance(1, 2);
+        let mut g = if rng.chance(1, 4) { Gen::new() } else { base_scenario(rng, 2, 3, finish) };
+        // the burst goes in after the last step of the base scenario that opens a connection or
+        // issues a call (indices of the base scenario stay what they are)
+        let lo = g.ops.iter().rposition(|t| ["C", "U", "S", "Q", "B"].iter().any(|p| t.starts_with(p))).map(|x| x + 1).unwrap_or(0);
+        let at = rng.range(lo as u64, g.ops.len() as u64) as usize;
+        let base_conns = g.nconn;
+        let base_calls = g.calls.len();
+        let k = if j == 0 { format!("K{}", n) } else { format!("K{}:{}", n, j) };
+        // what surrounds the burst at the same instant
+        let mut around: Vec<String> = match (j == 0, rng.below(8)) {
+            (true, 0) if !nosignal => vec!["G~0".into(), k.clone()],
+            (true, 1) if !nosignal => vec![format!("{}~0", k), "G".into()],
+            (true, 2) => vec![format!("{}~0", k), "E".into()],
+            (true, 3) => vec!["E~0".into(), k.clone()],
+            (true, 4) if !nosignal => vec![k.clone(), "G".into()],
+            (true, 5) => vec![k.clone(), "E".into()],
+            (false, 0) => vec![format!("{}~0", k), "E".into()],
+            (false, 1) => vec![k.clone(), "E".into()],
+            (false, 2) => vec![format!("{}~0", k), "G".into()],
+            (false, 3) => vec!["C~0".into(), k.clone()],
+            (false, 4) => vec![format!("{}~{}", k, rng.pick(&[0u64, 1, 2])), "C".into()],
+            _ => vec![k.clone()],
+        };
+        // a connection offered next to the burst shifts the burst's indices
+        let extra_before = around.first().map(|t| t.starts_with('C')).unwrap_or(false) as usize;
+        let extra_conns = around.iter().filter(|t| t.starts_with('C')).count();
+        let first = base_conns + extra_before;
+        // calls on connections of the burst, issued right behind it
+        let mut burst_calls = Vec::new();
+        for _ in 0..rng.below(3) {
+            let c = first + rng.below(n as u64) as usize;
+            let code = *rng.pick(&CODES);
+            if rng.chance(1, 2) {
+                around.push(format!("U{}:{}", c, code));
+                burst_calls.push(1usize);
+            } else {
+                around.push(format!("S{}:1:{}", c, code));
+                burst_calls.push(3usize);
+            }
+        }
+        g.nconn += n + extra_conns;
+        let mut ops = insert_at(&g.ops, at, &around);
+        // their handlers are released at the end, some of them
+        for (x, phases) in burst_calls.iter().enumerate() {
+            for _ in 0..rng.below(*phases as u64 + 1) {
+                ops.push(format!("A{}", base_calls + x));
+            }
+        }
+        if rng.chance(1, 3) {
+            ops.extend(late_probe(g.nconn));
+        }
+        if j == 0 && !nosignal && !ops.iter().any(|t| t.starts_with('G') || t.starts_with('E')) && rng.chance(2, 3) {
+            let pos = rng.range((at + around.len()) as u64, ops.len() as u64) as usize;
+            ops = insert_at(&ops, pos, &["G".to_string()]);
+        }
+        let timed = rng.chance(1, 4);
+        if timed {
+            ops = time_at_quiet_place(&ops, rng);
+        }
+        let (buf, payload) = pick_sizes(rng, g.calls.len() + burst_calls.len());
+        let class = format!("burst{}{}{}", if j == 0 { "" } else { "-wired" }, if nosignal { "-nosignal" } else { "" }, if timed { "-timed" } else { "" });
+        out.push(format!("{} {}", header(&class, mode, buf, payload, timed && rng.chance(1, 2)), ops.join(" ")));
+    }
+}
+
+/// every burst 1 ≤ j ≤ n ≤ 4 (and the unwired ones) in every small context: what the server has
+/// when the burst arrives x what comes right behind it x with / without a quiescent point between
+fn burst_contexts(out: &mut Vec<String>) {
+    let before: [(&str, usize, usize); 6] = [("", 0, 0), ("C", 1, 0), ("C C", 2, 0), ("C U0:0", 1, 1), ("C S0:1:0 A0", 1, 1), ("C U0:0 A0", 1, 1)];
+    let after = ["", "E", "G", "C", "A0", "U#:0", "W61"];
+    for n in 1..=4usize {
+        for j in 0..=n {
+            let k = if j == 0 { format!("K{}", n) } else { format!("K{}:{}", n, j) };
+            for (b, nconn, ncall) in before {
+                for a in after {
+                    if a == "A0" && ncall == 0 {
+                        continue;
+                    }
+                    // `U#:0`: a call on the last connection of the burst
+                    let a = a.replace('#', &(nconn + n - 1).to_string());
+                    for racy in [false, true] {
+                        if racy && (a.is_empty() || a.starts_with('W')) {
+                            continue;
+                        }
+                        let kk = if racy { format!("{}~0", k) } else { k.clone() };
+                        let ops: Vec<&str> = [b, kk.as_str(), a.as_str()].into_iter().filter(|t| !t.is_empty()).collect();
+                        out.push(format!("sc:burst-contexts g b1024 p10 a0 {}", ops.join(" ")));
+                    }
+                }
+            }
+        }
+    }
+}
+
 /// thorough tier: every scenario up to a length bound over a small alphabet (one connection
 /// pre-offered or not, two calls at most)
 fn exhaustive(out: &mut Vec<String>, max_len: usize) {
@@ -2452,6 +2686,8 @@ fn generate_scripts(tier: &str, rng: &mut Rng) -> Vec<String> {
     let mut out = corpus();
     if thorough {
         structured(&mut out, rng, 10000, 4, 6);
+        bursts(&mut out, rng, 12000);
+        burst_contexts(&mut out);
         phases(&mut out, rng, 20000);
         tcp_scenarios(&mut tcp, rng, 400);
         tls_scenarios(&mut out, rng, 1500);
@@ -2463,6 +2699,8 @@ fn generate_scripts(tier: &str, rng: &mut Rng) -> Vec<String> {
         racy_variants(&mut out, rng, &ex);
     } else {
         structured(&mut out, rng, 160, 3, 4);
+        bursts(&mut out, rng, 240);
+        burst_contexts(&mut out);
         phases(&mut out, rng, 300);
         tcp_scenarios(&mut tcp, rng, 24);
         tls_scenarios(&mut out, rng, 30);
